@@ -1,4 +1,4 @@
-(* C03 — matrices: the two recorded findings, exhibited by the model. *)
+(* C03 — matrices: executable examples (regression witnesses of fixed defects). *)
 From Coq Require Import ZArith List Bool.
 From ADV Require Import C11.Model C03.Model C03.ModelM.
 Import ListNotations.
@@ -8,23 +8,21 @@ Open Scope Z_scope.
 Definition mabs (w : w4) (x : mref) : list Z :=
   let '(r, c) := mdims w x in map (mrd w x) (zseq 0 (Z.to_nat (r * c))).
 
-(* C03-MDOTM-STALE: the sparse MdotM adds a.b to what the receiver held before;
-   the dense one overwrites.  r = [[7]], a = [[2]], b = [[3]] *)
-Lemma mdotm_stale_refuted_lemma :
+(* regression witnesses of two defects fixed in /repo by c117908 (sparse MdotM
+   accumulated onto the prior content of the receiver) and fc1915b (sparse
+   matrix Equals answered false wherever the receiver had no entry): at HEAD
+   both storages agree *)
+Lemma mdotm_stale_fixed_lemma :
   let w := run4 TFloat init4 [NewSM [0] [7] 1 1; NewDM [7] 1 1; NewDM [2] 1 1; NewDM [3] 1 1] in
   mabs w (XS 0) = mabs w (XD 0) /\
   mabs (fst (step4 TFloat w (MdotM (XD 0) (XD 1) (XD 2)))) (XD 0) = [6] /\
-  mabs (fst (step4 TFloat w (MdotM (XS 0) (XD 1) (XD 2)))) (XS 0) = [13].
+  mabs (fst (step4 TFloat w (MdotM (XS 0) (XD 1) (XD 2)))) (XS 0) = [6].
 Proof. vm_compute. repeat split; reflexivity. Qed.
-
-(* C03-MEQ-ABSENT: sparse matrix Equals answers false as soon as it meets a
-   position where the receiver has no entry, whatever epsilon is.
-   a = [[0]], b = [[1]], epsilon = 5/2 *)
-Lemma mequals_absent_refuted_lemma :
+Lemma mequals_absent_fixed_lemma :
   let w := run4 TFloat init4 [NewSM [] [] 1 1; NewDM [0] 1 1; NewDM [1] 1 1] in
   mabs w (XS 0) = mabs w (XD 0) /\
   snd (step4 TFloat w (MEquals (XD 0) (XD 1) 5)) = (K_OK, [1]) /\
-  snd (step4 TFloat w (MEquals (XS 0) (XD 1) 5)) = (K_OK, [0]).
+  snd (step4 TFloat w (MEquals (XS 0) (XD 1) 5)) = (K_OK, [1]).
 Proof. vm_compute. repeat split; reflexivity. Qed.
 
 (* sanity: where no finding applies the storages agree (examples) *)
